@@ -61,6 +61,24 @@ class CloneGen(kernel.Gen):
             return ["copy", self.vref(prog, fm), self.vref(prog, fm)]
         return ["rec", self.newtag()]
 
+    def marker_need(self, prog, fm, fr):
+        """'<share> is updated|changed [in frame me|name] [by mk]' on an absolute or relative share.  In moots mostly on
+        shares that are NOT clone relative (absolute, main relative): clones with equal tags under different mains
+        then watch the same share and must still own their marks"""
+        r = self.rng
+        kind = r.choice(["updated", "updated", "changed"])
+        infr = r.choice([None, None, "me", r.choice(fm["frames"])["name"]])
+        by = r.choice([None, None, "mka", "mkb"])
+        if fm["sched"] == "moot" and prog.get("nrel"):
+            x = r.random()
+            ref = r.randrange(prog["nvars"]) if x < 0.55 else [r.choice(["mfr", "mfr", "mfe", "fr", "ino"]), r.randrange(prog["nrel"])]
+        else:
+            ref = self.vref(prog, fm) if r.random() < 0.4 else r.randrange(prog["nvars"])
+            if isinstance(ref, list) and ref[0] == "fe":
+                ref = r.randrange(prog["nvars"])
+        n = [kind, ref, infr, by]
+        return ["not", n] if r.random() < 0.1 else n
+
     # ---- frames -----------------------------------------------------------------------------
     def frames(self, prefix, n):
         r = self.rng
@@ -104,6 +122,23 @@ class CloneGen(kernel.Gen):
                     ns = self.needs(prog, fm, 0 if r.random() < 0.12 else 1, 2)
                     if fr["auxes"] and r.random() < 0.5:
                         ns = ns[:1] + [["doneaux", r.choice(["any", "all"]), fr["name"]]]
+                    names = [x["name"] for x in fm["frames"]]
+                    nxt = names[names.index(fr["name"]) + 1] if names.index(fr["name"]) + 1 < len(names) else None
+                    if nxt and self.f("verbs") and r.random() < (0.3 if fm["sched"] == "moot" else 0.12):
+                        # the timeout / repeat verbs (target = lexically next frame): the implicit need reads the
+                        # EXECUTING framer's own elapsed / recurred, also in a clone
+                        if r.random() < 0.5:
+                            t = r.choice([1, 2, 3, 4]) * prog["tick"] if r.random() < 0.7 else r.choice([0.1, 0.3, 0.25, 0.5])
+                            fr["preacts"].append(["go", [["elapsed", ">=", t]], nxt, "timeout"])
+                        else:
+                            fr["preacts"].append(["go", [["recurred", ">=", r.randint(0, 4)]], nxt, "repeat"])
+                        continue
+                    if self.f("marker") and r.random() < (0.5 if fm["sched"] == "moot" else 0.25):
+                        mn = self.marker_need(prog, fm, fr)
+                        if r.random() < 0.6:
+                            ns = [mn]               # a transition that waits for the update alone
+                        else:
+                            ns.insert(r.randint(0, len(ns)), mn)
                     fr["preacts"].append(["go", ns, far])
                 else:
                     fr["preacts"].append(["act", self.simple_act(prog, fm)])
@@ -200,6 +235,71 @@ class CloneGen(kernel.Gen):
                             a["tag"] = "c%d" % ctag[0]
         for fm in prog["framers"]:
             self.fill(prog, fm)
+        return prog
+
+    # ---- directed: clones with EQUAL TAGS under different mains watching one share ------------------------
+    def marker_program(self):
+        """a feeder framer updates .v0 (and .v1) every few ticks; a watcher moot waits for `is updated` / `is changed`
+        (optionally `in frame`, `by`) on a share that is not clone relative, counts in its own framer-relative share
+        and waits again.  The watcher is cloned as `mine` (or under one explicit tag) by two scheduled framers and/or
+        nested in an outer moot that is cloned twice: the clones carry the same tag under different mains, and each
+        must still see every update exactly as an original run alone does (Marks are per framer NAME)."""
+        r = self.rng
+        self.tag = 0
+        tick = r.choice(self.ticks)
+        prog = {"tick": tick, "nvars": 2, "nrel": 1, "framers": []}
+
+        def frame(name, over=None):
+            return {"name": name, "over": over, "under": None, "beacts": [], "enacts": [["rec", self.newtag()]],
+                    "renacts": [], "preacts": [], "reacts": [["rec", self.newtag()]], "exacts": [["rec", self.newtag()]],
+                    "rexacts": [], "auxes": []}
+        fd = {"name": "fd", "sched": "active", "order": r.choice(["front", "mid", "back"]), "period": 0.0, "first": "i0",
+              "frames": [frame("i0"), frame("i1")]}
+        fd["frames"][0]["preacts"].append(["go", [["elapsed", ">=", r.randint(1, 3) * tick]], "i1"])
+        fd["frames"][1]["enacts"].append(r.choice([["inc", 0, 1], ["put", 0, 1], ["inc", 0, 2]]))
+        if r.random() < 0.5:
+            fd["frames"][1]["enacts"].append(["inc", 1, 1])
+        fd["frames"][1]["preacts"].append(["go", [], "i0"])
+        tagname = "mine" if r.random() < 0.7 else "w"
+        shape = r.choice(["two-mains", "nested", "both"])
+        watcher = {"name": "mo1", "sched": "moot", "order": "mid", "period": 0.0, "first": "k0",
+                   "frames": [frame("k0"), frame("k1"), frame("k2")]}
+        k0, k1, k2 = watcher["frames"]
+        k0["enacts"].append(["put", ["fr", 0], 0])
+        k0["preacts"].append(["go", [], "k1"])
+        kind = r.choice(["updated", "updated", "changed"])
+        share = r.choice([0, 0, 0, 1])
+        infr = r.choice([None, None, "me", "k1"])
+        by = r.choice([None, None, "mka"])
+        ns = [[kind, share, infr, by]]
+        if r.random() < 0.3:
+            ns.append(r.choice([["recurred", ">=", r.randint(0, 2)], ["var", ["fr", 0], "<=", r.randint(2, 6)]]))
+        k1["preacts"].append(["go", ns, "k2"])
+        if r.random() < 0.3:
+            k1["preacts"].append(["go", [[r.choice(["updated", "changed"]), 1, None, r.choice([None, "mkb"])]], "k0"])
+        k2["enacts"].append(["inc", ["fr", 0], 1])
+        if r.random() < 0.4:
+            k2["enacts"].append(["inc", ["mfr", 0], 1])
+        k2["preacts"].append(["go", [] if r.random() < 0.6 else [["recurred", ">=", r.randint(0, 2)]], "k1"])
+        outer = {"name": "mo0", "sched": "moot", "order": "mid", "period": 0.0, "first": "o0", "frames": [frame("o0")]}
+        for _ in range(r.randint(1, 2)):
+            outer["frames"][0]["auxes"].append({"moot": "mo1", "tag": tagname if tagname == "mine" else "w%d" % _,
+                                                "via": r.choice([None, None, "n1"])})
+        mains = []
+        for i in range(2 if shape in ("two-mains", "both") else 1):
+            m = {"name": "m%d" % i, "sched": "active", "order": r.choice(["front", "mid", "back"]), "period": 0.0,
+                 "first": "f0", "frames": [frame("f0"), frame("f1")]}
+            f0, f1 = m["frames"]
+            if shape in ("two-mains", "both"):
+                f0["auxes"].append({"moot": "mo1", "tag": tagname, "via": None})
+            if shape in ("nested", "both"):
+                for _ in range(2 if shape == "nested" else r.randint(1, 2)):
+                    f0["auxes"].append({"moot": "mo0", "tag": "mine", "via": None})
+            if r.random() < 0.4:
+                f0["preacts"].append(["go", [["elapsed", ">=", r.randint(6, 12) * tick]], "f1"])
+                f1["preacts"].append(["go", [["recurred", ">=", r.randint(0, 2)]], "f0"])
+            mains.append(m)
+        prog["framers"] = [fd] + mains + [outer, watcher]
         return prog
 
     # ---- rear / raze programs ----------------------------------------------------------------------
